@@ -2,7 +2,7 @@
 import ast
 
 from engine import effects, facts
-from engine.astutil import src, call_name, dotted, names_in, enclosing_map
+from engine.astutil import src, call_name, dotted, names_in, enclosing_map, Guards
 from engine.loader import AnalysisError
 from . import shared_state as SS
 
@@ -157,6 +157,38 @@ def run(repo, rep):
     from .common import report_sortkey
     n += report_sortkey(repo, rep, 'C19.c')
     rep.floor('C19.c', n, 4)
+
+    # ---------------------------------------------------------------- C19.e the requests extra does not read a body nobody has read
+    # (foreign fact, requests.models.Response: .content / .text / .json() / .apparent_encoding / .iter_content() / .iter_lines() read
+    # the body from the network stream and mark the response consumed - printing an unread response would change it, and a later
+    # .iter_content() of the caller gets nothing).  Each such access must be dominated by a test that the content was already consumed.
+    CONSUMING = {'content', 'text', 'json', 'apparent_encoding', 'iter_content', 'iter_lines', 'raw'}
+    try:
+        rq = repo.module('extras.requests')
+    except AnalysisError:
+        rq = None
+    ne = 0
+    if rq is not None:
+        for f in rq.funcs.values():
+            if not f.params or 'resp' not in f.params[0].lower():
+                continue
+            resp = f.params[0]
+            g = Guards(f.node)
+            # names that hold "the content was consumed"
+            flags = {src(s.targets[0]) for s in ast.walk(f.node) if isinstance(s, ast.Assign) and len(s.targets) == 1
+                     and '_content_consumed' in src(s.value)}
+            for a in ast.walk(f.node):
+                if isinstance(a, ast.Attribute) and isinstance(a.ctx, ast.Load) and src(a.value) == resp and a.attr in CONSUMING:
+                    ne += 1
+                    ok = any((ff.pol and (ff.text in flags or '_content_consumed' in ff.text)) or
+                             ((not ff.pol) and ff.text.startswith('not ') and (ff.text[4:] in flags or '_content_consumed' in ff.text))
+                             for ff in g.of(a))
+                    rep.check(ok, 'C19.e', '%s:reads-body:%s' % (f.qualname, a.attr), '%s:%d' % (rq.relpath, a.lineno),
+                              'read only after the content was consumed by the caller',
+                              '%s reads %s.%s on a path that has not established that the body was already read: for a streamed response this '
+                              'pulls the body from the connection and marks it consumed - printing changes the object (and the caller\'s later '
+                              'iter_content() is empty)' % (f.key, resp, a.attr), nontrivial=True)
+    rep.floor('C19.e', ne, 2)
 
     # ---------------------------------------------------------------- C19.d
     n = SS.doc_object_stores(repo, rep, 'C19.d')
